@@ -684,6 +684,28 @@ func (fr *Frame) phis(b *ssa.BasicBlock, preds []*ssa.BasicBlock, edges []string
 		if !ok {
 			break
 		}
+		fr.phiOne(b, phi, preds, edges, states)
+	}
+}
+
+// loopInvariantPhi: a phi at a loop header whose operand on every back edge is the phi itself keeps, in every
+// iteration, the value it had on entry (typically a function value chosen by an if/else just before the loop).
+func (fr *Frame) loopInvariantPhi(h *ssa.BasicBlock, phi *ssa.Phi) bool {
+	n := 0
+	for j, p := range h.Preds {
+		if fr.back[[2]int{p.Index, h.Index}] {
+			if phi.Edges[j] != ssa.Value(phi) {
+				return false
+			}
+			n++
+		}
+	}
+	return n > 0
+}
+
+// phiOne merges the operands of one phi over the given (already processed) predecessor edges.
+func (fr *Frame) phiOne(b *ssa.BasicBlock, phi *ssa.Phi, preds []*ssa.BasicBlock, edges []string, states []*State) {
+	{
 		term := ""
 		var alts []altFn
 		allFn := true
@@ -894,6 +916,10 @@ func (fr *Frame) enterLoop(li *loopInfo, h *ssa.BasicBlock, preds []*ssa.BasicBl
 		phi, ok := ins.(*ssa.Phi)
 		if !ok {
 			break
+		}
+		if fr.loopInvariantPhi(h, phi) {
+			fr.phiOne(h, phi, preds, edges, states)
+			continue
 		}
 		n := fr.setFresh(phi)
 		if phi.Comment == "rangeindex" {
